@@ -117,7 +117,7 @@ func c02ReadDump(exp *ExpressionNode, doc *CandidateNode) (string, bool) {
 // VerifC02PutGetFrame: after `p = v` reading p yields v, and every unrelated path q reads as before.
 func VerifC02PutGetFrame() {
 	kb := verifStrN("kb", 1, "ad")
-	x0, x1, x2, x3 := verifStrN("x0", 1, "03"), verifStrN("x1", 1, "03"), verifStrN("x2", 1, "03"), verifStrN("x3", 1, "03")
+	x0, x1, x2, x3 := verifStrN("x0", 1, vDigits()), verifStrN("x1", 1, vDigits()), verifStrN("x2", 1, vDigits()), verifStrN("x3", 1, vDigits())
 	pt := verifChoice("ptmpl", 3)
 	p := c02MakePath("p", pt)
 	vk := verifChoice("vkind", 3)
@@ -164,7 +164,7 @@ func VerifC02PutGetFrame() {
 // VerifC02PutPutGetPut: `p = v1 | p = v2` equals `p = v2`; `p = p` changes nothing when p has one match.
 func VerifC02PutPutGetPut() {
 	kb := verifStrN("kb", 1, "ad")
-	x0, x1, x2, x3 := verifStrN("x0", 1, "03"), verifStrN("x1", 1, "03"), verifStrN("x2", 1, "03"), verifStrN("x3", 1, "03")
+	x0, x1, x2, x3 := verifStrN("x0", 1, vDigits()), verifStrN("x1", 1, vDigits()), verifStrN("x2", 1, vDigits()), verifStrN("x3", 1, vDigits())
 	pt := verifChoice("ptmpl", 3)
 	p := c02MakePath("p", pt)
 	vk1 := verifChoice("vkind1", 3)
@@ -220,7 +220,7 @@ func c02Attached(root, n *CandidateNode) bool {
 // VerifC02Update: `p |= f` gives each match the first result of f applied to it (matches visited back to
 // front); `p op= e` gives each match m the value m op e.
 func VerifC02Update() {
-	x1, x2 := verifStrN("x1", 1, "03"), verifStrN("x2", 1, "03")
+	x1, x2 := verifStrN("x1", 1, vDigits()), verifStrN("x2", 1, vDigits())
 	n1, _ := parseInt64ForHarness(x1)
 	n2, _ := parseInt64ForHarness(x2)
 	k := verifStrN("k", 1, "05")
